@@ -126,7 +126,7 @@ func lineNet(t *testing.T) (mocknet.Mocknet, []libhost.Host) {
 	return net, hosts
 }
 
-func runSubscriberGroup(t *testing.T, group []map[string]any, withVerifier bool, tw, rw *mbt.Writer) {
+func runSubscriberGroup(t *testing.T, group []map[string]any, withVerifier, metrics bool, tw, rw *mbt.Writer) {
 	synctest.Test(t, func(t *testing.T) {
 		ctx, cancel := context.WithCancel(context.Background())
 		net, hosts := lineNet(t)
@@ -144,7 +144,11 @@ func runSubscriberGroup(t *testing.T, group []map[string]any, withVerifier bool,
 		psS := mk(hosts[1], pubsub.WithRawTracer(tr))
 		psD := mk(hosts[2])
 		topicID := p2p.PubsubTopicID(networkID)
-		sub, err := p2p.NewSubscriber[*vh.Header](psS, idFn, p2p.WithSubscriberNetworkID(networkID))
+		sopts := []p2p.SubscriberOption{p2p.WithSubscriberNetworkID(networkID)}
+		if metrics {
+			sopts = append(sopts, p2p.WithSubscriberMetrics()) // replay-only dimension: the bookkeeping around a verdict must not change it
+		}
+		sub, err := p2p.NewSubscriber[*vh.Header](psS, idFn, sopts...)
 		if err != nil {
 			t.Fatal(err)
 		}
@@ -296,18 +300,24 @@ func TestSubscriber(t *testing.T) {
 	cases, rw, tw := openIO(t)
 	defer rw.Close()
 	defer tw.Close()
-	var with, without []map[string]any
+	var with, withM, without []map[string]any
 	for _, c := range cases {
-		if mbt.Str(mbt.Map(c, "in"), "verifier") == "notset" {
+		switch in := mbt.Map(c, "in"); {
+		case mbt.Str(in, "verifier") == "notset":
 			without = append(without, c)
-		} else {
+		case mbt.Bool(in, "metrics"):
+			withM = append(withM, c)
+		default:
 			with = append(with, c)
 		}
 	}
 	if len(with) > 0 {
-		runSubscriberGroup(t, with, true, tw, rw)
+		runSubscriberGroup(t, with, true, false, tw, rw)
+	}
+	if len(withM) > 0 {
+		runSubscriberGroup(t, withM, true, true, tw, rw)
 	}
 	if len(without) > 0 {
-		runSubscriberGroup(t, without, false, tw, rw)
+		runSubscriberGroup(t, without, false, false, tw, rw)
 	}
 }
